@@ -180,7 +180,11 @@ NONE = V(TNone, None)
 
 def vint(n): return V(TInt, z3.IntVal(n) if isinstance(n, int) else n)
 def vbool(b): return V(TBool, z3.BoolVal(b) if isinstance(b, bool) else b)
-def vstr(s): return V(TStr, z3.StringVal(s) if isinstance(s, str) else s)
+def zs(s):
+    """z3 string constant for a python str (z3.StringVal interprets backslash-u escapes: protect backslashes)"""
+    return z3.StringVal(s.replace('\\', '\\u{5c}'))
+
+def vstr(s): return V(TStr, zs(s) if isinstance(s, str) else s)
 
 def pack(v):
     ty = v.ty
@@ -470,7 +474,7 @@ def veq(a, b):
 def _enum_str_eq(e, s):
     ty = e.ty
     if not all(isinstance(x, str) for x in ty.values): return z3.BoolVal(False)
-    return z3.Or(*[z3.And(e.t == ty.const(m), s.t == z3.StringVal(val)) for m, val in zip(ty.members, ty.values)])
+    return z3.Or(*[z3.And(e.t == ty.const(m), s.t == zs(val)) for m, val in zip(ty.members, ty.values)])
 
 def truth(v):
     """python truthiness as z3 Bool"""
